@@ -136,13 +136,22 @@ def check_stream(case, stats):
                 os.unlink(p)
 
 
+SPECIALS = [
+    # values that make optional message fields empty after substitution; empty names; comment-only and blank-only sources
+    "Feature: f\n Scenario Outline: o <a>\n  Given <a>\n   \"\"\"<a>\n   <a>\n   \"\"\"\n  And t\n   | <a> |\n  Examples:\n   | a |\n   |   |\n   | x |\n",
+    "Feature:\n Scenario:\n  Given \n Rule:\n  Background:\n  Example:\n",
+    "# only a comment\n", "\n\n  \n", "#language: fr\n# c\n",
+    "@t\nFeature: f\n @u\n Scenario Outline: o\n  * <x>\n @e1\n Examples: one\n  | x |\n @e2\n Examples: two\n  | x |\n  | 1 |\n",
+]
+
+
 def g_stream(s):
     n = s.rng(1, 4)
     srcs = []
     for _ in range(n):
         k = s.int(8)
         if k == 0:
-            srcs.append(s.choice(["", "﻿Feature: bom\n", "Feature: f\r\n  Scenario: s\r\n    Given x\r\n", "Feature: f\n  Scenario Outline: o\n    And <a>\n    Examples:\n      | a |\n      | 1 |\n",
+            srcs.append(s.choice(SPECIALS + ["", "﻿Feature: bom\n", "Feature: f\r\n  Scenario: s\r\n    Given x\r\n", "Feature: f\n  Scenario Outline: o\n    And <a>\n    Examples:\n      | a |\n      | 1 |\n",
                                   "Feature: f\n Scenario: s\n  Given t\n   | a |\n  And d\n   ```x\n   c\n   ```\n"]))
         else:
             srcs.append(noisy.g_noisy(s)[0])
